@@ -177,8 +177,33 @@ class Walk:
                 elif off is not None:
                     off += i.d['const_off']
                 v = self.resolve(i.ops[0])
+            elif i.op == 'load':
+                # a pointer parked in a local (a context struct member): the value of the last store on this path to the same local at the same offset
+                fwd = self._forward(i)
+                if fwd is None: return None
+                v = self.resolve(fwd)
             else:
                 return None
+        return None
+
+    def _forward(self, ld):
+        from .ir import strip_casts
+        r, o = strip_casts(self.f, ld.ops[0])
+        if o is None or r['k'] != 'i' or self.f.insts[r['id']].op != 'alloca': return None
+        try: k = self.events.index(ld)
+        except ValueError: return None
+        for e in reversed(self.events[:k]):
+            if e.op == 'store':
+                r2, o2 = strip_casts(self.f, e.ops[1])
+                if r2 == r:
+                    if o2 == o: return e.ops[0]
+                    if o2 is None: return None
+            elif e.op == 'call' and any(strip_casts(self.f, a)[0] == r for a in e.ops):
+                t = self.P.call_target(e)
+                if t[0] == 'direct' and t[1] in self.P.defined and not any(strip_casts(self.f, a)[0] == r and self.P.writes_through(t[1], k_) for k_, a in enumerate(e.ops)):
+                    continue      # the callee only reads the local (and writes through the pointers parked in it)
+                if self.P.is_dbg(e) or (t[0] == 'direct' and t[1].startswith('llvm.lifetime')): continue
+                return None      # the local's address was handed to a callee that may have rewritten it
         return None
 
     def derived_from_arg(self, v):
@@ -200,6 +225,10 @@ class Walk:
             elif i.op == 'getelementptr':
                 off = None if (off is None or i.d['var_steps']) else off + i.d['const_off']
                 v = self.resolve(i.ops[0])
+            elif i.op == 'load':
+                fwd = self._forward(i)
+                if fwd is None: return None
+                v = self.resolve(fwd)
             else:
                 return None
 
